@@ -10,6 +10,7 @@ import (
 	"github.com/junioryono/godi/v4"
 	"github.com/junioryono/godi/v4/verifh/eng"
 	"github.com/junioryono/godi/v4/verifh/pool"
+	"github.com/junioryono/godi/v4/verifh/rt"
 )
 
 // fuzz constructors / values (top-level: no shared code pointers)
@@ -36,6 +37,13 @@ func fzUnsafe(p uintptr) *pool.K0        { return &pool.K0{} }
 func fzK0() *pool.K0                     { return &pool.K0{} }
 func fzK0b() *pool.K0                    { return &pool.K0{} }
 func fzNeedsK1(k *pool.K1) *pool.K2      { return &pool.K2{} }
+
+// last results of concrete types that implement error (not the error interface itself)
+func fzStructErr() (*pool.K0, rt.ZeroErr)      { return &pool.K0{}, rt.ZeroErr{} }
+func fzIntErr() (*pool.K0, rt.CodeErr)         { return &pool.K0{}, 0 }
+func fzPtrErrNil() (*pool.K0, *rt.SentinelErr) { return &pool.K0{}, nil }
+func fzPtrErrSet() (*pool.K0, *rt.SentinelErr) { return nil, &rt.SentinelErr{Ctor: -2, Nth: -2} }
+func fzStructErrOnly() rt.ZeroErr              { return rt.ZeroErr{} }
 
 type fzIn struct {
 	godi.In
@@ -78,6 +86,8 @@ func fuzzServices() []struct {
 		{"any-ret", fzIfaceRet}, {"in-pointer", fzInPtr}, {"in-bad-group", fzInBadGroup}, {"out-empty", fzOutEmpty},
 		{"out-pointer", fzOutPtr}, {"two-in-structs", fzTwoIn}, {"struct-ret", fzStructRet}, {"uintptr-param", fzUnsafe},
 		{"reflect-value", reflect.ValueOf(fzK0)}, {"reflect-type", reflect.TypeOf(0)}, {"good", fzK0},
+		{"struct-typed-error-result", fzStructErr}, {"int-typed-error-result", fzIntErr}, {"pointer-typed-error-result-nil", fzPtrErrNil},
+		{"pointer-typed-error-result-set", fzPtrErrSet}, {"struct-typed-error-only", fzStructErrOnly},
 	}
 }
 
